@@ -214,7 +214,7 @@ def random_fspec(rng, kinds):
     m = rng.choice(['JACCARD', 'COSINE', 'DICE', 'OVERLAP', 'EDIT_DISTANCE'])
     f = {'kind': kind, 'measure': m, 'allow_empty': rng.random() < 0.6,
          'measure_spelling': gen.spell(rng, m)}
-    f['threshold'] = rng.choice([1, 2, 3]) if m == 'OVERLAP' else (rng.choice([0, 1, 2, 3, 5]) if m == 'EDIT_DISTANCE'
+    f['threshold'] = rng.choice([1, 2, 3, 1.0, 1.5, 2.5]) if m == 'OVERLAP' else (rng.choice([0, 1, 2, 3, 5, 1.0, 1.5, 0.5]) if m == 'EDIT_DISTANCE'
                                                                      else gen.random_threshold(rng))
     return f
 
